@@ -105,7 +105,7 @@ def _parse_components(pid, tier, seed, mode="comp"):
     out = rundir(pid)
     exe = vlib.build("asan")
     tbl = recognizer_table()
-    m = vlib.model_check("MC_Value", timeout=1500)
+    m = vlib.model_check("MC_Value", cfg="MC_Value_t.cfg" if tier == "thorough" else "MC_Value.cfg", timeout=3000)
     res.add_model(m, "MC_Value (Components/Recompose round trip, span tiling, host classification over the focused alphabets)")
     n = "300000" if tier == "thorough" else "9000"
     h = vlib.run_harness(exe, ["parse_log", "--table", tbl, "--mode", mode, "--n", n, "--seed", str(seed), "--tier", tier], out, "plog")
@@ -162,9 +162,9 @@ def C05(tier, seed):
     out = rundir("C05")
     exe = vlib.build("asan")
     tbl = recognizer_table()
-    m = vlib.model_check("MC_Writer")
+    m = vlib.model_check("MC_Writer", cfg="MC_Writer_t.cfg" if tier == "thorough" else "MC_Writer.cfg", timeout=3000)
     res.add_model(m, "MC_Writer (append-by-piece bounded writer: never writes at index >= cap; final outcome satisfies the WriteOK contract)")
-    h = vlib.run_harness(exe, ["tostring", "--table", tbl, "--seed", str(seed), "--tier", tier], out, "tostr")
+    h = vlib.run_harness(exe, ["tostring", "--table", tbl, "--seed", str(seed), "--tier", tier] + (["--n", "30000"] if tier == "thorough" else []), out, "tostr", timeout=3000)
     res.violations += harness_crash_violations(h, "C05")
     res.add_stats(vlib.merge_stats(h["stats"]))
     res.violations += validate_stream(res, "Trace_ToString", out, "tostr", "C05")
@@ -445,8 +445,11 @@ def C20(tier, seed):
                        "ThreadSanitizer for the data-race clause on the schedules that happened; libc malloc is thread-safe"]
     return res
 
+# the thorough tier of the single-driver checks: as deep as a run of some minutes allows
+THOROUGH_EXTRA = {"escape": ["--n", "3000000"], "file": ["--n", "2000000"], "memory": ["--n", "150000"], "fault": ["--uris", "400"], "ledger": ["--uris", "2500"]}
 def _simple(pid, tier, seed, model, model_cfg_q, model_cfg_t, model_note, driver, trace, rule, assumptions, level="model_checking", extra_args=(), also=()):
     res = Result(pid, level)
+    if tier == "thorough": extra_args = list(extra_args) + THOROUGH_EXTRA.get(driver, [])
     out = rundir(pid)
     exe = vlib.build("asan")
     if model:
@@ -499,7 +502,7 @@ def C15(tier, seed):
         ["TLC/SANY, CommunityModules", "spec/UriMemory.tla (scaled-word design model) and Trace_Memory.tla (contract on recorded calls)", "content observations (prefix, zeroing, full-size usability, canaries) are made by the harness and ASan"])
 
 def C14(tier, seed):
-    res = _simple("C14", tier, seed, "MC_Ledger", "MC_Ledger.cfg", "MC_Ledger.cfg",
+    res = _simple("C14", tier, seed, "MC_Ledger", "MC_Ledger.cfg", "MC_Ledger_t.cfg",
         "the ledger automaton: any interleaving of requests, failures and releases; a history is clean iff every handed-out block is released exactly once",
         "fault", "Trace_Fault",
         "for every input shape of every operation (parse; resolve and create-reference against several bases and both option values; normalize borrowed and owned with single-bit / combined / all masks; make-owner; dissect; compose-malloc) the k-th request through the supplied manager fails, "
@@ -521,7 +524,7 @@ def C13(tier, seed):
     return res
 
 def _C13(tier, seed):
-    return _simple("C13", tier, seed, "MC_Ledger", "MC_Ledger.cfg", "MC_Ledger.cfg",
+    return _simple("C13", tier, seed, "MC_Ledger", "MC_Ledger.cfg", "MC_Ledger_t.cfg",
         "the ledger automaton over all short histories: balanced exactly when every handed-out block is released once and nothing else is released",
         "ledger", "Trace_Ledger",
         "every function that takes a memory manager (parse, resolve, create-reference, normalize with 10 masks borrowed and owned, make-owner, dissect, compose-malloc, the matching release calls) on a corpus of URIs of every host kind x three manager kinds: "
